@@ -17,6 +17,7 @@ import Anko.Model.Literal
 import Anko.Model.PrecTable
 import Anko.Model.Scanner
 import Anko.Model.Chan
+import Anko.Model.Cont
 
 open Anko
 
@@ -198,8 +199,73 @@ def handlePipe (args : List Sexp) : String :=
     | none => "bad-args"
   | _ => "bad-args"
 
+namespace ContDrv
+open Anko.Cont
+
+def decV : Sexp → Option V
+  | Sexp.atom "nil" => some .nil
+  | Sexp.list [Sexp.atom "i", Sexp.atom n] => n.toInt?.map V.int
+  | Sexp.list [Sexp.atom "b", Sexp.atom x] => some (.bool (x == "1"))
+  | Sexp.list [Sexp.atom "s"] => some (.str [])
+  | Sexp.list [Sexp.atom "s", Sexp.atom h] => (Sexp.unhexBytes h.toList).map (fun bs => V.str (bs.map (fun b => Char.ofNat b.toNat)))
+  | _ => none
+
+def decArg : Sexp → Option Arg
+  | Sexp.list [Sexp.atom "v", Sexp.atom x] => some (.var x)
+  | s => (decV s).map Arg.lit
+
+def decOpt : Sexp → Option (Option Arg)
+  | Sexp.atom "_" => some none
+  | s => (decArg s).map some
+
+def decOp : Sexp → Option Op
+  | Sexp.list (Sexp.atom "list" :: Sexp.atom x :: as) => (as.mapM decArg).map (Op.list x)
+  | Sexp.list (Sexp.atom "map" :: Sexp.atom x :: kvs) =>
+    (kvs.mapM (fun kv => match kv with
+      | Sexp.list [k, v] => do pure ((← decArg k), (← decArg v))
+      | _ => none)).map (Op.mapLit x)
+  | Sexp.list [Sexp.atom "copy", Sexp.atom y, a] => (decArg a).map (Op.copy y)
+  | Sexp.list [Sexp.atom "index", a, i] => do pure (.index (← decArg a) (← decArg i))
+  | Sexp.list [Sexp.atom "slice", Sexp.atom y, a, b, e, c] => do pure (.slice y (← decArg a) (← decOpt b) (← decOpt e) (← decOpt c))
+  | Sexp.list [Sexp.atom "set", Sexp.atom x, i, v, Sexp.atom nc] => do pure (.setIndex x (← decArg i) (← decArg v) (← nc.toNat?))
+  | Sexp.list [Sexp.atom "append", Sexp.atom y, a, v, Sexp.atom nc] => do pure (.append y (← decArg a) (← decArg v) (← nc.toNat?))
+  | Sexp.list [Sexp.atom "len", a] => (decArg a).map Op.len
+  | Sexp.list [Sexp.atom "del", a, k] => do pure (.delete (← decArg a) (← decArg k))
+  | _ => none
+
+def showV (h : Heap) : Nat → V → String
+  | _, .nil => "nil"
+  | _, .int i => s!"{i}"
+  | _, .bool b => if b then "true" else "false"
+  | _, .str cs => "s:" ++ Sexp.hexBytes (String.ofList cs).toUTF8.toList
+  | 0, _ => "..."
+  | d + 1, .slice s => "[" ++ " ".intercalate ((h.elems s).map (showV h d)) ++ s!"]#{s.cap}"
+  | d + 1, .map id =>
+    let ents := ((h.maps[id]?.getD []).map (fun kv => showV h d kv.1 ++ ":" ++ showV h d kv.2)).toArray.qsort (· < ·)
+    "{" ++ " ".intercalate ents.toList ++ "}"
+
+def showOut (h : Heap) (op : Op) : Out → String
+  | .ok v => (match op with
+    | .index _ _ => "ok " ++ showV h 5 v
+    | .len _ => "ok " ++ showV h 5 v
+    | _ => "ok")
+  | .err m => "err " ++ m.replace " " "_"
+
+def handle (args : List Sexp) : String :=
+  match args.mapM decOp with
+  | none => "bad-args"
+  | some ops =>
+    let r := ops.foldl (fun (acc : Heap × List String) op =>
+      let st := acc.1.step op
+      (st.1, acc.2 ++ [showOut st.1 op st.2])) (Heap.empty, [])
+    let vars := (r.1.vars.map (fun kv => kv.1 ++ "=" ++ showV r.1 5 kv.2)).toArray.qsort (· < ·)
+    " | ".intercalate r.2 ++ " || " ++ " ".intercalate vars.toList
+
+end ContDrv
+
 def handleOps (cmd : String) (args : List Sexp) : String :=
   match cmd, args with
+  | "cont", args => ContDrv.handle args
   | "chanhist", args => handleChanHist args
   | "pipe", args => handlePipe args
   | "lex", [] => handleLex ""
